@@ -20,6 +20,15 @@ CLAIMED = {
              '(port, value, previous 0x7FFD all symbolic). Histories of any length follow by induction, which subsumes the property\'s sequences of up to 3 port writes.',
         note='Python implementations only (C twins are reached through C06). T < 2^32 is a bound of the claim. Trusted: lib/symx.py, z3, the reading of "accepted write" as port & 0x8002 == 0 with bit 5 clear.',
         design='4 (C08)', technique=TECH + '; inductive invariant step'),
+    'C19': dict(
+        text='For every dispatch slot, on 48K and 128K, the real CMIOSimulator closure and the real plain Simulator closure are run from one symbolic state: all effects other than T and MEMPTR '
+             'are shown equal; the (address, T-states) pattern the closure hands to contend() is shown equal cycle by cycle to the documented machine cycles (reference table keyed by an independent decoder); '
+             'T_cmio = T_plain + the delay returned; where contend is skipped the wait pattern is shown to be 0 throughout the instruction. The real contend_48k/128k loop is shown equal to the reference fold of the '
+             '6,5,4,3,2,1,0,0 pattern (>= 0, 0 when nothing is contended) for symbolic patterns/start times, io_contention_* to the four documented I/O cases, and the DELAYS tables to the closed form entry by entry. '
+             'Any structural mismatch is decided end to end with the real contend (semantic fallback; thorough runs that for every slot).',
+        note='Reference cycle lists and their listed conventions (HALT fetch address while halted; OTIR/OTDR trailing cycles use BC before the decrement, as both skoolkit implementations do) are trusted. '
+             'Quick visits all slots on 48K and, on 128K, the I/O slots plus every 16th slot (the closures are the same code; contend_128k/io_contention_128k are checked directly). C implementation: via C06.',
+        design='4 (C19), 3.2', technique=TECH + '; captured contention patterns vs documented machine cycles, fold lemma for contend()'),
 }
 NOT_APPLICABLE = {
     'C16': 'HTML link/anchor consistency is a property of generated document structure (which files and id= strings exist); there is no bounded arithmetic/data path to make symbolic - a solver encoding would be a copy of the writer (DESIGN.md section 5).',
